@@ -685,6 +685,11 @@ func glen[M ~map[int]int](m M, n int) int {
 	return c
 }
 `}}},
+		mk("indepstores", `	c, d := 0, 0
+	p, q := &c, &d
+	*p = a
+	*q = b
+	return c*10 + d, x`),
 		mk("dupexpr", `	t := a * b
 	c := (t + 1) * (t + 1)
 	d := (t - 2) * (t - 2)
